@@ -1097,6 +1097,27 @@ fn case_store(ctx: &mut Ctx, k: Consts, sub: u64) {
             ctx.report.violation("model", "C09:checkpoints", "checkpoints decoded by the model differ from block_checkpoints()".into(), case.clone());
         }
         ctx.report.count("store-model-whole-file");
+        // a mix of iterations and fetches on ONE reader: cache statistics against the model's
+        // `runOps` (iter_raw reads its blocks through the same LRU)
+        if total <= 60_000 {
+            let r4 = open_real(&file, cache).unwrap();
+            let mut spec: Vec<String> = vec![];
+            let bits: String = (0..n).map(|i| if i % 3 == 1 { '0' } else { '1' }).collect();
+            let ab = make_alive_bitset(&(0..n).map(|i| i % 3 != 1).collect::<Vec<_>>());
+            for step in 0..6 {
+                match (step + rng.below(2)) % 3 {
+                    0 => { let _ = tantivy::verif::c09_iter_raw(&r4, None); spec.push("iall".into()); }
+                    1 => { let d = rng.below(n as u64 + 1) as u32; let _ = real_get_bytes(&r4, d); spec.push(format!("g{d}")); }
+                    _ => { let _ = tantivy::verif::c09_iter_raw(&r4, Some(&ab)); spec.push(format!("i{bits}")); }
+                }
+            }
+            let (h, m, e) = tantivy::verif::c09_cache_stats(&r4);
+            let mo = ctx.model.ask(&format!("C09 ops {cache} {} {}", hex(&file), spec.join(";")));
+            if mo != format!("{h}/{m}/{e}/1") {
+                ctx.report.violation("model", "C09:cache-stats-mixed", format!("iterations and fetches on one reader (capacity {cache}): CacheStats {h}/{m}/{e}, model {mo} (last field: cached answers = uncached)"), case.clone());
+            }
+            ctx.report.count("store-mixed-ops-compared");
+        }
     }
     if ctx.report.samples.len() < 4 && cps.len() > 8 {
         ctx.report.sample(json!({"kind":"store","docs":n,"block_size":bs,"compressor":compressor_name(&comp),"dedicated_thread":thread,"blocks":cps.len(),"skip_layers":layers,"cache":cache}));
@@ -2801,6 +2822,7 @@ pub fn run(ctx: &mut Ctx) {
         "JSON number classification: OwnedValue::from(serde_json::Value) = model jsonNumber".into(),
         "TantivyDocument node_data (leaf encodings, address tables) = model cdAdd, byte for byte".into(),
         "lz4 / zstd blocks: 4-byte length frame = model framed codec header".into(),
+        "iter_raw + get on one reader: CacheStats = model runOps (iteration through the cache)".into(),
     ];
     // ---- child: one phase, or one replayed case, in this process -------------------------------
     if let Ok(phase) = std::env::var("TVH_C09_CHILD") {
